@@ -303,7 +303,7 @@ def eval_listcomp(E, e, st, fx):
             hook = getattr(E, "comprehension_hook", None)
             res = hook(E, e, r.val, r.st, fx) if hook else None
             if res is None and isinstance(e, (ast.ListComp, ast.GeneratorExp)):
-                res = map_symbolic(E, e, g, r.val, r.st, fx)
+                res = map_symbolic(E, e, g, r.val, r.st, fx) if not g.ifs else filter_symbolic(E, e, g, r.val, r.st, fx)
             if res is None:
                 raise OutOfReach("comprehension over symbolic iterable in %s" % fx.qualname)
             out.extend(res)
@@ -466,3 +466,76 @@ def map_symbolic(E, e, g, it, st, fx):
             hook(E, good, res)
         outs.append(Ev(good, res))
     return outs
+
+
+def filter_symbolic(E, e, g, it, st, fx):
+    """[elt for x in xs if cond] over an iterable of symbolic length n (A-filter, the semantics of a filtered
+    comprehension): element and filter are executed once on the symbolic element at a fresh index; if either can raise,
+    or has an effect, the comprehension is out of reach. Otherwise the result is a list R[0..m) and a strictly increasing
+    src: [0..m) -> [0..n) with keep(src(k)), R[k] == elt(src(k)), and every kept index in the range of src."""
+    from . import ghost
+    view = _iter_view(E, it, st)
+    if view is None:
+        return None
+    n, item = view
+    j = z3.Int(fresh_name("fj"))
+    base = st.fork()
+    base_len = len(base.pc)
+    pure = (ast.Name, ast.Attribute, ast.Constant, ast.UnaryOp, ast.Not, ast.Compare, ast.BoolOp, ast.And, ast.Or, ast.Subscript, ast.Tuple,
+            ast.Load, ast.Is, ast.IsNot, ast.Eq, ast.NotEq, ast.In, ast.NotIn)
+    for x in [e.elt] + list(g.ifs):
+        if not all(isinstance(nd, pure) for nd in ast.walk(x)):
+            return None            # calls in the element or filter could have effects: not summarised
+    base.assume(0 <= j, j < n)
+    it_val = item(j)
+    alts = it_val if isinstance(it_val, list) else [(it_val, [], "elem")]
+    kept, dropped = [], []
+    for v, cons, label in alts:
+        b = base.fork()
+        b.assume(*cons)
+        if not E.feasible(b):
+            continue
+        for a in E.assign(g.target, v, b, fx):
+            if a.exc is not None:
+                return None
+            states = [(a.st, True)]
+            for cond in g.ifs:
+                ns = []
+                for s2, keep in states:
+                    if not keep:
+                        ns.append((s2, False))
+                        continue
+                    for cr in E.ev(cond, s2, fx):
+                        if cr.exc is not None:
+                            return None
+                        for b2, t in E.branch(cr.st, E.truth(cr.val, cr.st)):
+                            ns.append((b2, t))
+                states = ns
+            for s2, keep in states:
+                if not keep:
+                    dropped.append(s2)
+                    continue
+                for r in E.ev(e.elt, s2, fx):
+                    if r.exc is not None:
+                        return None
+                    t = E.inject(r.val, r.st)
+                    if t is None:
+                        return None
+                    kept.append((r.st, t))
+    jb, jc = z3.Int("fk"), z3.Int("fk2")
+    arr = z3.Const(fresh_name("filtered"), ghost.PARR)
+    m = z3.Int(fresh_name("n_kept"))
+    src = z3.Function(fresh_name("filter_src"), z3.IntSort(), z3.IntSort())
+    conds = [z3.And(s2.pc[base_len:]) for s2, _t in kept]          # each includes 0 <= j < n
+    keep_at = lambda x: z3.Or([z3.substitute(c, (j, x)) for c in conds]) if conds else z3.BoolVal(False)
+    good = st
+    good.assume(m >= 0, m <= n)
+    body = [0 <= src(jb), src(jb) < n, keep_at(src(jb))]
+    for (s2, t), c in zip(kept, conds):
+        body.append(z3.Implies(z3.substitute(c, (j, src(jb))), arr[jb] == z3.substitute(t, (j, src(jb)))))
+    good.assume(z3.ForAll([jb], z3.Implies(z3.And(0 <= jb, jb < m), z3.And(body))),
+                z3.ForAll([jb, jc], z3.Implies(z3.And(0 <= jb, jb < jc, jc < m), src(jb) < src(jc))),
+                z3.ForAll([jb], z3.Implies(keep_at(jb), z3.Exists([jc], z3.And(0 <= jc, jc < m, src(jc) == jb)))))
+    res = ghost.new_pyarr(good, arr, m)
+    good.ghost["last_filter"] = {"src": src, "m": m, "arr": arr, "n": n, "keep": keep_at, "result": res}
+    return [Ev(good, res)]
